@@ -51,4 +51,20 @@ CHECKS = {
         'state and the return values agree (removeChild/removeBlock under the C04 invariant); calls that fail (bad reference block, non-child, appendChild(None)) return the world unchanged. '
         'Tie: the C04 history space executed in lock-step on library, model and an independent Python reference document (return values, outerHTML, innerHTML, textContent, block structure).',
    note='Trusted: Coq kernel + vm_compute; harness; uuid4 freshness; list.index/remove through AdvancedTag.__eq__ and str.replace/in as transcribed in Model/Dom.v. Model: Tags.py mutators 456-835 (after the fix commits) on a world of trees with all redundant fields kept.' + ' Partial: remove() is tied through removeChild (its use of the parentNode link is covered by C04 + correspondence); serialisation views are checked by the oracle, their model arrives with C01.'),
+ 'C02': dict(
+   text='Theorems (Coq, closed) over all token streams and parser states: end-tag rules (ignored when not open / closes the innermost / closes the nearest with everything inside), void and self-closed elements never stay open, '
+        'attribute intake never fails, no handler raises inside an open element, the wrapped second pass is total, and the tree of every accepted feed satisfies the C04 invariant owned by the parser. '
+        'Tie: exhaustive short and random long token sequences rendered to HTML, histories of several parses on plain/indexed/validating parsers: the model is fed the handler calls the real tokenizer made and must reproduce '
+        'the full tree with attributes, doctype, getRootNodes, getHTML and the second-pass wrapping; an independent Python stack interpreter checks the property text directly, incl. the five entry points.',
+   note="Trusted: Coq kernel + vm_compute; harness incl. the token-recording subclasses; the stdlib html.parser tokenizer is in the loop (its recorded handler calls are the model\\'s input) but not verified; utils.addStartTag/DOCTYPE_MATCH are modelled at token level (Parser.wrap) and compared with the recorded second-pass stream; stripIEConditionals is not modelled. Model: Parser.py handlers/feed/_reset, Validator.py, attribute intake (Model/Parser.v, Model/Attr.v), getHTML (Model/Serial.v)." + ' Partial: the refinement to a plain rose-tree stack specification is represented by the per-token theorems and the independent Python interpreter (oracle), not by a single simulation theorem; entry points are oracle-only.'),
+ 'C03': dict(
+   text='Theorems (Coq, closed) over the full token alphabet: the plain/indexed handler logic raises nothing but the MultipleRootNodeException that feed catches, the wrapped second pass never raises, element creation is total for any attribute list, '
+        'hence feed returns normally for every input stream; serialisation is defined whenever a root exists. Tie + observation: hostile strings (0-200 chars) through every parser class/index configuration, recorded handler calls replayed on the model; '
+        'the oracle observes no exception, no debugger call, time bound, str results of getHTML/getFormattedHTML/getMiniHTML/outerHTML, reuse of the object, and the four formatters.',
+   note="Trusted: Coq kernel + vm_compute; harness incl. the token-recording subclasses; the stdlib html.parser tokenizer is in the loop (its recorded handler calls are the model\\'s input) but not verified; utils.addStartTag/DOCTYPE_MATCH are modelled at token level (Parser.wrap) and compared with the recorded second-pass stream; stripIEConditionals is not modelled. Model: Parser.py handlers/feed/_reset, Validator.py, attribute intake (Model/Parser.v, Model/Attr.v), getHTML (Model/Serial.v)." + ' Partial by nature: wall-clock time, debugger prompts and exceptions inside code the model abstracts are observed, not proved. One known finding is listed (formatter has nothing to format when the serialisation holds no complete token).'),
+ 'C13': dict(
+   text='Theorems (Coq, closed): the validating handlers raise InvalidAttributeName / InvalidClose / MissedClose exactly under the stated stack conditions at the offending token, pop exactly the innermost element otherwise, and whenever they accept '
+        'a token, a stream or a whole feed (multi-root retry included) the plain parser reaches the identical state, so the tree is the same and satisfies the C04 invariant. Tie: the C02 sequences + balanced perturbation classes classified by an independent '
+        'stack walk (histogram in the evidence), validating parser outcome compared with model and classification; serialisations of library-built trees must validate.',
+   note="Trusted: Coq kernel + vm_compute; harness incl. the token-recording subclasses; the stdlib html.parser tokenizer is in the loop (its recorded handler calls are the model\\'s input) but not verified; utils.addStartTag/DOCTYPE_MATCH are modelled at token level (Parser.wrap) and compared with the recorded second-pass stream; stripIEConditionals is not modelled. Model: Parser.py handlers/feed/_reset, Validator.py, attribute intake (Model/Parser.v, Model/Attr.v), getHTML (Model/Serial.v)."),
 }
